@@ -265,10 +265,22 @@ pub fn app_layer(scratch: &crate::world::app::Scratch, net: &Net, st: &mut Stats
     // the vehicle of the queries is lighter than the weight limit and taller than the height limit: one row met, one exceeded
     // (the two rows of the edge are not neighbours in the file: the exceeded one first, a row of another edge that binds no
     // vehicle in between, the met one last)
+    // four row sets for the restricted edge, by network: (0) height exceeded, weight met; (1) trailer limit 16 m and weight limit,
+    // both met although the vehicle's total length (18.29 m) is beyond 16 m: the edge stays open; (2) length limit 16 m exceeded
+    // by the total length while the trailer limit 20 m is met; (3) trailer limit 14 m exceeded by the 15 m trailer, length limit
+    // 20 m met
+    let row_set = (idx / 7) % 4;
+    let (first, last): ((&str, f64, &str), (&str, f64, &str)) = match row_set {
+        0 => (("maximum_height", 4.0, "meters"), ("maximum_total_weight", 5.0, "tons")),
+        1 => (("maximum_trailer_length", 16.0, "meters"), ("maximum_total_weight", 5.0, "tons")),
+        2 => (("maximum_length", 16.0, "meters"), ("maximum_trailer_length", 20.0, "meters")),
+        _ => (("maximum_trailer_length", 14.0, "meters"), ("maximum_length", 20.0, "meters")),
+    };
+    let e0_closed = row_set != 1;
     spec.vehicle_restrictions = Some(if m > 1 {
-        vec![(e0, "maximum_height".into(), 4.0, "meters".into()), ((e0 + 1) % m, "maximum_width".into(), 100.0, "meters".into()), (e0, "maximum_total_weight".into(), 5.0, "tons".into())]
+        vec![(e0, first.0.into(), first.1, first.2.into()), ((e0 + 1) % m, "maximum_width".into(), 100.0, "meters".into()), (e0, last.0.into(), last.1, last.2.into())]
     } else {
-        vec![(e0, "maximum_total_weight".into(), 5.0, "tons".into()), (e0, "maximum_height".into(), 4.0, "meters".into())]
+        vec![(e0, last.0.into(), last.1, last.2.into()), (e0, first.0.into(), first.1, first.2.into())]
     });
     spec.frontier = json!({"type": "combined", "models": [
         {"type": "road_class", "road_class_input_file": "$DIR/road_classes.txt", "road_class_parser": {"mapping": {"local": 0, "highway": 1}}},
@@ -289,7 +301,7 @@ pub fn app_layer(scratch: &crate::world::app::Scratch, net: &Net, st: &mut Stats
         }
     };
     let vp = json!({"height": [13.5, "feet"], "width": [2.5, "meters"], "total_length": [60.0, "feet"], "trailer_length": [15.0, "meters"], "total_weight": [4000.0, "kg"], "number_of_axles": 4});
-    let permitted = |e: usize| classes[e] == 0 && e != e0;
+    let permitted = |e: usize| classes[e] == 0 && (e != e0 || !e0_closed);
     let mut queries: Vec<(Value, usize, Option<usize>)> = vec![];
     for o in 0..n {
         queries.push((json!({"origin_vertex": o, "road_classes": ["local"], "vehicle_parameters": vp}), o, None));
@@ -325,7 +337,7 @@ pub fn app_layer(scratch: &crate::world::app::Scratch, net: &Net, st: &mut Stats
             }
         };
         let reach = reachable(net, *o, true, &permitted);
-        let case = || json!({"net": net, "app_layer": true, "query": q, "road_classes_table": classes, "restricted_edge": e0});
+        let case = || json!({"net": net, "app_layer": true, "query": q, "road_classes_table": classes, "restricted_edge": e0, "restriction_row_set": row_set});
         let err = r.get("error").filter(|e| !e.is_null()).map(|e| e.to_string());
         match d {
             Some(d) => {
